@@ -341,10 +341,19 @@ def _eval_const(expr: str, env: dict):
         }
         if not isinstance(a, (int, float)) or not isinstance(b, (int, float)):
             raise ValueError("unsupported operand type")
+        # keep transpile-time arithmetic cheap: no huge powers / shifts / operands
+        for operand in (a, b):
+            if isinstance(operand, int) and operand.bit_length() > 64:
+                raise ValueError("constant too large to fold")
+        if opcls in (ast.Pow, ast.LShift) and abs(b) > 64:
+            raise ValueError("constant too large to fold")
         return ops[opcls](a, b)
 
     tree = ast.parse(expr, mode="eval")
-    return ev(tree.body)
+    result = ev(tree.body)
+    if isinstance(result, float) and (result != result or result in (float("inf"), float("-inf"))):
+        raise ValueError("non-finite constant")
+    return result
 
 
 def _to_c_expr(
